@@ -30,6 +30,7 @@ def run(w):
 
 
 _EMU = None
+_SAVED = None
 
 
 def _emu():
@@ -98,6 +99,30 @@ def run_emu(w):
                     pass
             global _EMU
             _EMU = emu = fresh
+            sch = emu._scheduler
+        elif p[0] in ("S", "L"):
+            # rewind through the public API: S saves a snapshot and goes on with the same machine; L loads the snapshot saved
+            # by the last S back into that same machine (which has run on since)
+            import os
+            import tempfile
+            import contextlib
+            import io
+
+            global _SAVED
+            try:
+                with contextlib.redirect_stdout(io.StringIO()):
+                    if p[0] == "S":
+                        d = tempfile.mkdtemp(prefix="tsnap", dir=os.environ.get("VERIF_TMP", None))
+                        _SAVED = os.path.join(d, "t.pcsnap")
+                        emu.save_snapshot(_SAVED)
+                    else:
+                        try:
+                            emu.load_snapshot(_SAVED)
+                        finally:
+                            os.remove(_SAVED)
+                            os.rmdir(os.path.dirname(_SAVED))
+            except Exception as e:  # noqa: BLE001
+                return f"ERR snapshot:{type(e).__name__}"
             sch = emu._scheduler
         else:
             return "ERR bad-op"
